@@ -114,9 +114,9 @@ func main() {
 	tier := flag.Int("tier", 0, "")
 	flag.Parse()
 	w := json.NewEncoder(os.Stdout)
-	masks := []string{"r", "w", "a", "c", "d", "rw", "wc", "k", "m", "wr"}
+	masks := []string{"r", "w", "a", "c", "d", "rw", "wc", "k", "m", "wr", "ac", "rac", "wa"}
 	uids := [][2]string{{"1000", "1000"}, {"1000", "0"}, {"0", "0"}}
-	ops := map[string]string{"r": "open", "w": "open", "a": "open", "c": "mknod", "d": "unlink", "rw": "open", "wc": "open", "k": "file_lock", "m": "file_mmap", "wr": "file_perm"}
+	ops := map[string]string{"r": "open", "w": "open", "a": "open", "c": "mknod", "d": "unlink", "rw": "open", "wc": "open", "k": "file_lock", "m": "file_mmap", "wr": "file_perm", "ac": "open", "rac": "open", "wa": "open"}
 	n := 0
 	for _, name := range names(*tier) {
 		for _, m := range masks {
@@ -147,11 +147,31 @@ func main() {
 		n++
 		w.Encode(process(fmt.Sprintf("link-%d", n), fileRec("DENIED", "link", name, "l", "1000", "1000", "target", "/srv/data/linktarget")))
 	}
+	// digit and hex runs of EVERY length up to the bound, at the end of a name and inside one: whatever variable the
+	// cleaner substitutes must still match the run that was logged
+	maxRun := 40
+	if *tier > 0 {
+		maxRun = 100
+	}
+	for l := 1; l <= maxRun; l++ {
+		asc, hex := "", ""
+		for i := 0; i < l; i++ {
+			asc += string(rune('1' + (i % 9)))
+			hex += string("a1b2c3d4e5f6"[i%12])
+		}
+		for _, run := range []string{asc, strings.Repeat("7", l), hex} {
+			for _, name := range []string{"/srv/runs/" + run, "/srv/runs/x-" + run + ".log"} {
+				n++
+				w.Encode(process(fmt.Sprintf("file-run-%d", n), fileRec("DENIED", "open", name, "r", "1000", "1000")))
+			}
+		}
+	}
 	// pairs that differ in exactly one aspect: nothing may be discarded as a duplicate
 	base := fileRec("DENIED", "open", "/srv/Foo", "r", "1000", "1000")
 	variants := []rec{
 		fileRec("DENIED", "open", "/srv/foo", "r", "1000", "1000"), // path case
 		fileRec("DENIED", "open", "/srv/Foo", "w", "1000", "1000"), // mask
+		fileRec("DENIED", "open", "/srv/Foo", "a", "1000", "1000"), // mask: append next to read
 		fileRec("AUDIT", "open", "/srv/Foo", "r", "1000", "1000"),  // qualifier
 		fileRec("DENIED", "open", "/srv/Foo", "r", "1000", "0"),    // owner
 		fileRec("DENIED", "open", "/srv/Foo bar", "r", "1000", "1000"),
@@ -160,6 +180,12 @@ func main() {
 	for i, v := range variants {
 		w.Encode(process(fmt.Sprintf("pair-file-%d-ab", i), base, v))
 		w.Encode(process(fmt.Sprintf("pair-file-%d-ba", i), v, base))
+	}
+	wbase := fileRec("DENIED", "open", "/srv/Foo", "w", "1000", "1000")
+	for i, m := range []string{"a", "c", "d", "ac", "k"} {
+		v := fileRec("DENIED", "open", "/srv/Foo", m, "1000", "1000")
+		w.Encode(process(fmt.Sprintf("pair-write-%d-ab", i), wbase, v))
+		w.Encode(process(fmt.Sprintf("pair-write-%d-ba", i), v, wbase))
 	}
 	// other classes
 	others := []rec{
